@@ -186,3 +186,11 @@ def c03pins():
 
 if __name__ == '__main__':
     c03pins()
+
+
+def c05pins():
+    pin('C05', 'per-empty-complete-encoding', mod([('A', Ty('NULL'))]), 'A', None, codec='uper', zero_bits=True)
+
+
+if __name__ == '__main__':
+    c05pins()
